@@ -110,7 +110,7 @@ theorem LkB.addLocal {pre rest : List Stmt} {last : Option Last} {kind : LocalKi
   intro D hd hn
   have hx1 : ∀ n ∈ ns.map TName.name, Stmt.refsList (.ref n) rest = false := fun n h => by
     have := hx n h; simp only [tailRefs, Bool.or_eq_false_iff] at this; exact this.1
-  have hw : ∀ n ∈ ns.map TName.name, DName.wat n ∉ D := fun n h hm => hfresh n h (hd n hm)
+  have hw : ∀ n ∈ ns.map TName.name, DName.wat n ∉ D := fun n h hm => hfresh n h (hd.wat n hm)
   have hnw : NoWat D ns := by
     clear hx hx1 hp
     induction ns with
@@ -263,5 +263,113 @@ theorem LkE.ofCtxEq {a a' : Expr} (h : ∀ D, WatOK cx D → CtxEqE cx D a a')
 theorem LkS.ofCtxEq {a a' : Stmt} (h : ∀ D, WatOK cx D → CtxEqS cx D a a')
     (hnr : ∀ D, WatOK cx D → NoRefS D a → NoRefS D a') : (LkS cx) a a' :=
   fun D hd hn => ⟨.genS fun _ hq => SoundS.ofCtxEq (h D hd) (Heap.reflS hq a' D (hnr D hd hn)), hnr D hd hn⟩
+
+end DarkluaModel.Sem.Heap
+
+namespace DarkluaModel.Sem.Heap
+variable {cx : Cx}
+
+/-- contextual equality up to budget exhaustion of the original (`cx.upto`), with the context's
+assumption on the call handler available -/
+def CtxLeE (cx : Cx) (D : List DName) (a a' : Expr) : Prop :=
+  ∀ (N : NumOps) (call : CallFn N) (ρ : ExtOracle N) (k : Nat) (env : Env N) (σ : State N),
+    cx.CF N call → CtxOK cx D env σ → (∀ p ∈ cx.F, FnGlobal σ p.1 p.2) →
+      (cx.upto = true ∧ evalE call ρ k env a σ = .timeout) ∨ evalE call ρ k env a' σ = evalE call ρ k env a σ
+def CtxLeS (cx : Cx) (D : List DName) (a a' : Stmt) : Prop :=
+  ∀ (N : NumOps) (call : CallFn N) (ρ : ExtOracle N) (k : Nat) (env : Env N) (σ : State N),
+    cx.CF N call → CtxOK cx D env σ → (∀ p ∈ cx.F, FnGlobal σ p.1 p.2) →
+      (cx.upto = true ∧ execS call ρ k env a σ = .timeout) ∨ execS call ρ k env a' σ = execS call ρ k env a σ
+
+theorem SoundE.ofCtxLe {Q : QRel} {D : List DName} {a a' : Expr} (h : CtxLeE cx D a a')
+    (hrefl : SoundE Q cx D a' a') : SoundE Q cx D a a' := by
+  intro N call ρ k env env' σ σ' β hc hs he
+  rcases h N call ρ k env σ hc.cf ⟨fun n hn => (he.loc.nb n hn).1, he.loc.dw, hs.ginv⟩ hs.finv with h1 | h1
+  · rw [h1.2]; exact RRel.timeout_left h1.1 _
+  · rw [← h1]; exact hrefl N call ρ k env env' σ σ' β hc hs he
+
+theorem SoundS.ofCtxLe {Q : QRel} {D : List DName} {a a' : Stmt} (h : CtxLeS cx D a a')
+    (hrefl : SoundS Q cx D a' a') : SoundS Q cx D a a' := by
+  intro N call ρ k env env' σ σ' β hc hs he
+  rcases h N call ρ k env σ hc.cf ⟨fun n hn => (he.loc.nb n hn).1, he.loc.dw, hs.ginv⟩ hs.finv with h1 | h1
+  · rw [h1.2]; exact RRel.timeout_left h1.1 _
+  · rw [← h1]; exact hrefl N call ρ k env env' σ σ' β hc hs he
+
+theorem LkE.ofCtxLe {a a' : Expr} (h : ∀ D, WatOK cx D → CtxLeE cx D a a')
+    (hnr : ∀ D, WatOK cx D → NoRefE D a → NoRefE D a') : (LkE cx) a a' :=
+  fun D hd hn => ⟨.genE fun _ hq => SoundE.ofCtxLe (h D hd) (Heap.reflE hq a' D (hnr D hd hn)), hnr D hd hn⟩
+
+theorem LkS.ofCtxLe {a a' : Stmt} (h : ∀ D, WatOK cx D → CtxLeS cx D a a')
+    (hnr : ∀ D, WatOK cx D → NoRefS D a → NoRefS D a') : (LkS cx) a a' :=
+  fun D hd hn => ⟨.genS fun _ hq => SoundS.ofCtxLe (h D hd) (Heap.reflS hq a' D (hnr D hd hn)), hnr D hd hn⟩
+
+/-- what the context must know about a watched global `name` that acts as the identity on its
+arguments: it holds the closure number `id` (fact `G`), whose body is `body` (fact `F`), and the call
+handler runs closures with that body (and an empty captured environment) as the identity — or runs out
+of budget (`CF`; true of `callClosure ρ n` for `function(...) return ... end`). -/
+structure IdGlobal (cx : Cx) (name : String) (id : Nat) (body : FnBody) : Prop where
+  watched : name ∈ cx.W
+  upto : cx.upto = true
+  isFn : ∀ N, (name, Val.fn id) ∈ cx.G N
+  hasBody : (name, body) ∈ cx.F
+  runs : ∀ (N : NumOps) (call : CallFn N), cx.CF N call → ∀ (clo : Closure N) args σ,
+    clo.body = body → clo.env = [] → call clo args σ = .ok args σ ∨ call clo args σ = .timeout
+
+/-- **Call fact step.** `name(e)` (all values of `e` handed through) against `e'`, when `name` is a watched
+global known to act as the identity (`IdGlobal`) — the shape of `remove_assertions` /
+`remove_debug_profiling` in expression position. The facts are read off the relation at the state
+AFTER evaluating `e`, which is why this is a relational step and not a `CtxLeE`. -/
+theorem SoundE.dropIdCall {Q : QRel} {D : List DName} {name : String} {id : Nat} {body : FnBody} {kd : ArgKind}
+    {e e' : Expr} (hI : IdGlobal cx name id body) (ih : SoundE Q cx D e e') :
+    SoundE Q cx D (.call (.var name) none kd [e]) e' := by
+  intro N call ρ k env env' σ σ' β hc hs he
+  have hl : lookupVar env name σ = .fn id := by
+    simp only [lookupVar, (he.loc.nb name (he.loc.dw name hI.watched)).1]
+    exact hs.ginv _ (hI.isFn N)
+  simp only [evalE, evalEs, Res.bind, first, List.headD, hl]
+  have h1 := ih N call ρ k env env' σ σ' β hc hs he
+  revert h1
+  generalize evalE call ρ k env e σ = r
+  generalize evalE call ρ k env' e' σ' = r'
+  intro h1
+  cases r <;> cases r' <;> simp only [RRel] at h1
+  · obtain ⟨β1, hle, ha, hs1⟩ := h1
+    cases ha
+    rename_i avs σ2 σ2'
+    simp only []
+    cases k with
+    | zero => simp only [callVal]; exact RRel.timeout_left hI.upto _
+    | succ k =>
+      obtain ⟨id2, clo, hg, hclo, hb, henv⟩ := hs1.finv _ hI.hasBody
+      have hid : id2 = id := by
+        have := hs1.ginv _ (hI.isFn N)
+        simp only [] at this
+        rw [this] at hg
+        injection hg with hg; exact hg.symm
+      subst hid
+      simp only [callVal, hclo]
+      rcases hI.runs N call hc.cf clo avs σ2 hb henv with h2 | h2
+      · rw [h2]; exact ⟨β1, hle, rfl, hs1⟩
+      · rw [h2]; exact RRel.timeout_left hI.upto _
+  · obtain ⟨rfl, β1, hle, hs1⟩ := h1
+    exact ⟨rfl, β1, hle, hs1⟩
+  · exact RRel.timeout_left h1 _
+  · exact RRel.timeout_left h1 _
+  · trivial
+
+/-- the identity function `function(...) return ... end` -/
+def idBody : FnBody := .mk [] true none none [] [] (.mk [] (some (.ret [.vararg])))
+
+/-- every call level runs `idBody` closures as the identity, or times out (level 0) -/
+theorem callClosure_idBody {N : NumOps} (ρ : ExtOracle N) (n : Nat) (clo : Closure N) (args : List (Val N))
+    (σ : State N) (hb : clo.body = idBody) (_henv : clo.env = []) :
+    callClosure ρ n clo args σ = .ok args σ ∨ callClosure ρ n clo args σ = .timeout := by
+  cases n with
+  | zero => right; rfl
+  | succ n =>
+    left
+    obtain ⟨body, cenv, va⟩ := clo
+    simp only [] at hb
+    subst hb
+    simp [callClosure, idBody, bindLocals, execB, execSs, execLast, evalEs, evalE, Res.bind]
 
 end DarkluaModel.Sem.Heap
